@@ -21,7 +21,7 @@ uint64_t G_L0; size_t G_data_off; uint64_t G_blk_stream0; size_t G_blk_off;
 typedef struct { uint8_t first[32]; size_t len; uint64_t nblocks; size_t num; uint8_t blk[64]; } hs_in;
 DECL_INPUT(hs_in);
 
-//@job name=sha256_update props=C03,C06 enforce=sha256_update replace=sha256_compress_blocks,memcpy timeout=1200
+//@job name=sha256_update props=C03,C06 enforce=sha256_update replace=sha256_compress_blocks,memcpy timeout=2400 tier=thorough
 void h_sha256_update(void)
 {
 	INPUT(hs_in, I); ASSUME(I.len <= ((size_t)1 << 50) && I.num < 64 && I.nblocks <= ((uint64_t)1 << 55));
